@@ -55,7 +55,7 @@ def oracle_signed(data, out, keys, key_name, alg, kid):
 
 
 def req_single(data, keys, key_name, kid, alg, ctx, action, out):
-    tab = sl.table_from_output(out, key_name, alg) if out else []
+    tab = sl.table_from_output(out, keys, key_name, alg) if out else []
     return ["sign_single", data, key_name.encode(), kid, alg.encode(), ctx, action.encode(), keys.table(), tab]
 
 
@@ -307,7 +307,7 @@ def run(tier, seed):
     failing = []
     try:
         keys = sl.Keys(os.path.join(tmp, "keys"))
-        envs = sl.make_envelopes(ck, tmp, 24 if ck.deep else 7, max_depth=2)
+        envs = sl.make_envelopes(ck, tmp, 90 if ck.thorough else 24 if ck.deep else 7, max_depth=2)
         envs.append((CORPUS_ENVELOPE, ["corpus"]))
         failing += corpus_stream(ck, tmp, keys)
         failing += lib_stream(ck, tmp, keys, envs)
@@ -370,15 +370,22 @@ def replay(path):
             keys.add(inp["key_name"], key, *sl.kind_of_key(key))
         if op in ("single-level", "cli single-level"):
             data = bytes.fromhex(inp["envelope_hex"])
-            if op.startswith("cli"):
-                rc, out = sl.cli_single(tmp, "replay", data, inp["key_name"], inp["key_id"], inp["alg"], keys.dir, None, inp.get("key_id_text"))
-                r = ("ok", out) if rc == 0 else ("exn", f"exit {rc}", out)
-            else:
-                r = sl.lib_single(tmp, data, inp["key_name"], inp["key_id"], inp["alg"], keys.dir, "error")
-            if inp.get("case"):
-                why = None if (r[0] != "ok" and r[2] is None) else f"result {r[0]}, output written"
-            else:
-                why = f"rejected with {r[1]}" if r[0] != "ok" else oracle_signed(data, r[1], keys, inp["key_name"], inp["alg"], inp["key_id"])
+            # ECDSA is randomised: a failure that depends on the signature value (leading zero bytes) is looked for over several signatures
+            tries = 1 if inp["alg"] not in KEY_SIZE or inp.get("case") else (8 if op.startswith("cli") else 64)
+            for attempt in range(tries):
+                if op.startswith("cli"):
+                    rc, out = sl.cli_single(tmp, "replay", data, inp["key_name"], inp["key_id"], inp["alg"], keys.dir, None, inp.get("key_id_text"))
+                    r = ("ok", out) if rc == 0 else ("exn", f"exit {rc}", out)
+                else:
+                    r = sl.lib_single(tmp, data, inp["key_name"], inp["key_id"], inp["alg"], keys.dir, "error")
+                if inp.get("case"):
+                    why = None if (r[0] != "ok" and r[2] is None) else f"result {r[0]}, output written"
+                else:
+                    why = f"rejected with {r[1]}" if r[0] != "ok" else oracle_signed(data, r[1], keys, inp["key_name"], inp["alg"], inp["key_id"])
+                if why:
+                    if attempt:
+                        why += f" (signature {attempt + 1} of {tries}: ECDSA signatures are randomised)"
+                    break
         elif op == "es-signature":
             ks, r_, s_ = inp["key_size"], int(inp["r"]), int(inp["s"])
             w = (ks + 7) // 8
